@@ -4,7 +4,8 @@ from . import core, conn, hist
 RULE = ("every ordered pair (A, B) of distinct commands from the pool, session-less (all commands allowed by the simulated BMC) and "
         "inside a session, under three reply-misdelivery patterns: B's first read returns a duplicate of A's reply; A's reply is "
         "delayed and arrives at B's first read (the duplicate produced by a retransmission after a slow reply); the delay persists "
-        "over a third command.  predicate: the value each call returns is the decoding of the BMC's own answer to *that* call "
+        "over a third command; session-less additionally: B answered node busy, then a stray duplicate of A's reply, then silence "
+        "until B's context expires.  predicate: the value each call returns is the decoding of the BMC's own answer to *that* call "
         "(completion code and response data logged by the BMC), never of another command's reply; tie: the Coq retry model "
         "reproduces transmissions and results.  distinct by (A, B, pattern, connection kind)")
 
@@ -18,8 +19,8 @@ def hook(ch, ctx):
     if not mine:
         ch.violation(desc, dict(detail, what="no well-formed transmission of the command reached the BMC"))
         return
-    if res["err"] == "lost":
-        return
+    if res["err"] in ("lost", "deadline"):
+        return          # no value was returned
     # the BMC's own answer(s) to this call: the result must be one of them
     answers = set((e["cc"], e["rspdata"]) for e in mine)
     ctx["answers"] = answers
@@ -38,7 +39,7 @@ def run(ch, build):
             pairs = rng.sample(pairs, min(len(pairs), 150))
         for k, (a, b) in enumerate(pairs):
             su = hist.SUITES[k % 9]
-            for pattern in ("dup", "delay", "delay3"):
+            for pattern in ("dup", "delay", "delay3") + (("busystray",) if not session else ()):
                 scn = {"bmc": conn.default_bmc(seed=k + 1, suites=[[100, su[0], su[1], su[2]]], loose=True), "timeout_ms": 40, "steps": []}
                 cn = "session" if session else "sessionless"
                 if session:
@@ -47,6 +48,12 @@ def run(ch, build):
                 if pattern == "dup":
                     scn["steps"] += [{"op": "cmd", "conn": cn, "cmd": a, "script": ["ok"]},
                                      {"op": "cmd", "conn": cn, "cmd": b, "script": ["dupprev", "ok"]},
+                                     {"op": "cmd", "conn": cn, "cmd": c3, "script": ["ok"]}]
+                elif pattern == "busystray":
+                    # B is answered "node busy", its retransmission reads a stray duplicate of A's reply (not an answer to
+                    # B), then nothing arrives until B's context expires: B must end in an error, never in A's value
+                    scn["steps"] += [{"op": "cmd", "conn": cn, "cmd": a, "script": ["ok"]},
+                                     {"op": "cmd", "conn": cn, "cmd": b, "script": ["busy", "dupstep", "silence", "silence", "silence", "silence"], "ctx_ms": 100},
                                      {"op": "cmd", "conn": cn, "cmd": c3, "script": ["ok"]}]
                 elif pattern == "delay" and not session:
                     # A's first reply is slow (the read times out), A is retransmitted and answered;
